@@ -124,13 +124,29 @@ fn bits_of(v: &Value) -> Vec<bool> {
     v.as_array().unwrap().iter().map(|b| b.as_u64().unwrap() == 1).collect()
 }
 
-fn run_history<Fm: Family>(alpha: &[bool], evals: &[(usize, Vec<bool>)], cache_kind: &str, rng: &mut Sm) {
+/// Builds the same logical input through the different public constructors: `from_bools`, and the `From<BitVec>` /
+/// `From<BitBox>` conversions applied to a copy of a sub-slice that does not start at bit 0 of its storage word
+/// (`to_bitvec()` keeps the head offset), so that cache keys are derived from unaligned storage.
+fn mk_input(bits: &[bool], variant: usize) -> IdpfInput {
+    use bitvec::prelude::*;
+    if variant % 3 == 0 || bits.is_empty() {
+        return IdpfInput::from_bools(bits);
+    }
+    let h = 1 + (variant / 3) % 7;
+    let mut bv: BitVec<usize, Lsb0> = BitVec::new();
+    for _ in 0..h { bv.push(false); }
+    for b in bits { bv.push(*b); }
+    let sl = &bv[h..];
+    if variant % 3 == 1 { IdpfInput::from(sl.to_bitvec()) } else { IdpfInput::from(sl.to_bitvec().into_boxed_bitslice()) }
+}
+
+fn run_history<Fm: Family>(alpha: &[bool], evals: &[(usize, Vec<bool>, Option<usize>)], cache_kind: &str, rng: &mut Sm, vsel: usize) {
     let bits = alpha.len();
     let idpf = Idpf::<Fm::VI, Fm::VL>::new((), ());
     let betas: Vec<Vec<u64>> = (0..bits).map(|l| (0..Fm::K).map(|i| 1 + ((l * 3 + i * 5) as u64 % 9)).collect()).collect();
     let ctx = rng.bytes(3);
     let nonce = rng.bytes(16);
-    let input = IdpfInput::from_bools(alpha);
+    let input = mk_input(alpha, vsel / 5);
     let inner: Vec<Fm::VI> = betas[..bits - 1].iter().map(|b| Fm::vi(b)).collect();
     let (ps, keys) = idpf.gen(&input, inner, Fm::vl(&betas[bits - 1]), &ctx, &nonce).expect("gen");
     log(json!({"ev":"begin","bits":bits,"alpha":alpha.iter().map(|b| *b as u8).collect::<Vec<_>>(),"betas":betas,"finner":Fm::FINNER,"fleaf":Fm::FLEAF,"k":Fm::K,"cache_kind":cache_kind}));
@@ -149,8 +165,9 @@ fn run_history<Fm: Family>(alpha: &[bool], evals: &[(usize, Vec<bool>)], cache_k
         caches.push(c);
     }
     let keys: [Seed<16>; 2] = keys;
-    for (agg, prefix) in evals {
-        let p = IdpfInput::from_bools(prefix);
+    for (k, (agg, prefix, forced)) in evals.iter().enumerate() {
+        // the k-th evaluation of unit `vsel` builds its prefix with constructor variant (vsel + k) mod 3 and head offset 1..7
+        let p = mk_input(prefix, forced.unwrap_or(if vsel == 0 { 0 } else { vsel + k + 3 * ((vsel / 3 + k) % 7) }));
         // cache-free reference for both parties (needed for the reconstruction identity)
         for a in 0..2 {
             match guarded(|| idpf.eval(a, &ps, &keys[a], &p, &ctx, &nonce, &mut NoCache::new())) {
@@ -192,10 +209,10 @@ pub fn record(args: &[String], lines: impl Iterator<Item = String>) {
             if units >= max { break; }
             let v: Value = serde_json::from_str(&line).expect("script");
             let alpha = bits_of(&v["alpha"]);
-            let evals: Vec<(usize, Vec<bool>)> = v["evals"].as_array().unwrap().iter().map(|e| (e[0].as_u64().unwrap() as usize, bits_of(&e[1]))).collect();
+            let evals: Vec<(usize, Vec<bool>, Option<usize>)> = v["evals"].as_array().unwrap().iter().map(|e| (e[0].as_u64().unwrap() as usize, bits_of(&e[1]), None)).collect();
             let kind = kinds[i % kinds.len()];
             units += 1;
-            if i % 2 == 0 { run_history::<PoplarFam>(&alpha, &evals, kind, &mut rng); } else { run_history::<TinyFam>(&alpha, &evals, kind, &mut rng); }
+            if i % 2 == 0 { run_history::<PoplarFam>(&alpha, &evals, kind, &mut rng, i / 14); } else { run_history::<TinyFam>(&alpha, &evals, kind, &mut rng, i / 14); }
         }
     } else {
         // deep trees: seeded random histories mixing on-path, sibling and random prefixes of every length
@@ -207,15 +224,27 @@ pub fn record(args: &[String], lines: impl Iterator<Item = String>) {
                     let len = match rng.below(6) { 0 => 1, 1 => *bits, 2 => *bits - 1, _ => 1 + rng.below(*bits as u64) as usize };
                     let mut p: Vec<bool> = alpha[..len].to_vec();
                     match rng.below(4) { 0 => { let i = rng.below(len as u64) as usize; p[i] = !p[i]; } 1 => { p[len - 1] = !p[len - 1]; } _ => {} }
-                    evals.push((rng.below(2) as usize, p));
+                    evals.push((rng.below(2) as usize, p, None));
                 }
                 // error cases: empty prefix, too long, aggregator id 2
-                evals.push((0, vec![]));
-                evals.push((1, vec![true; *bits + 1]));
-                evals.push((2, alpha[..1].to_vec()));
+                // storage-level near-collisions: x.0^h built from a slice with head offset h, after 0^h.x built aligned
+                // (equal raw storage words and equal length, different logical prefixes)
+                for hh in 1..=3usize {
+                    let n_ = (hh + 1 + rng.below(6) as usize).min(*bits);
+                    if n_ <= hh { continue; }
+                    let x: Vec<bool> = (0..n_ - hh).map(|i| i == 0 || rng.below(2) == 1).collect();
+                    let c: Vec<bool> = std::iter::repeat(false).take(hh).chain(x.iter().copied()).collect();
+                    let b: Vec<bool> = x.iter().copied().chain(std::iter::repeat(false).take(hh)).collect();
+                    let a = rng.below(2) as usize;
+                    evals.push((a, c, Some(0)));
+                    evals.push((a, b, Some(1 + 3 * (hh - 1) + (hh % 2))));
+                }
+                evals.push((0, vec![], None));
+                evals.push((1, vec![true; *bits + 1], None));
+                evals.push((2, alpha[..1].to_vec(), None));
                 let kind = kinds[(n + h) % kinds.len()];
                 units += 1;
-                if *bits <= 64 && h % 2 == 1 { run_history::<TinyFam>(&alpha, &evals, kind, &mut rng); } else { run_history::<PoplarFam>(&alpha, &evals, kind, &mut rng); }
+                if *bits <= 64 && h % 2 == 1 { run_history::<TinyFam>(&alpha, &evals, kind, &mut rng, n + h); } else { run_history::<PoplarFam>(&alpha, &evals, kind, &mut rng, n + h); }
             }
         }
     }
